@@ -30,6 +30,20 @@ Theorem C08_applied_only_if_passed :
 Proof. exact applied_only_if_passed. Qed.
 Print Assumptions C08_applied_only_if_passed.
 
+(* an inconsistent tally (types.IsQuorum reports an error: more votes than eligible voters because a
+   voter lost the permission after voting, or a quorum above 1) with the repaired end blocker
+   ([quorum_error_panics P = false], read from x/gov/abci.go): the proposal is finalised as
+   quorum-not-reached and is never applied.  (With the earlier shape the end blocker panicked:
+   nothing was finalised or applied either, the block was lost -- property C06.) *)
+Theorem C08_inconsistent_tally_not_applied :
+  forall A content ext (P : params A content ext) ops a id res tl nv q mine c af e,
+  quorum_error_panics P = false ->
+  final_of id (log (run P ops (init a))) = Some (res, tl, nv, q, mine, c, af) ->
+  is_quorum q (t_total tl) nv = Err e ->
+  res = QuorumNotReached /\ n_applied id (log (run P ops (init a))) = O.
+Proof. exact inconsistent_tally_not_applied. Qed.
+Print Assumptions C08_inconsistent_tally_not_applied.
+
 (* the quorum test is exact: votes >= quorum * eligible voters, and never more votes than voters *)
 Theorem C08_quorum_exact : forall q v n b, is_quorum q v n = Ok b ->
   v <= n /\ q <= PREC /\ b = (n * q <=? v * PREC).
@@ -184,7 +198,7 @@ Theorem C08_chk_sound_oracles : forall w who ct,
   fst (spec_window w ct) = w_end_secs w ct /\ snd (spec_window w ct) = w_enact_secs w ct
   /\ spec_quorum w ct = w_quorum w ct
   /\ may_vote w who ct = w_is_active w who && w_can w who (vote_perm ct) ct
-  /\ ((vote_perm ct =? 0) = false -> eligible w ct = w_nvoters w ct /\ veto_capable w ct = w_nveto w ct).
+  /\ ((vote_perm ct =? 0) = false -> eligible w ct = w_nvoters w ct /\ forall f, veto_capable w ct = w_nveto f w ct).
 Proof.
   exact (fun w who ct => conj (proj1 (chk_window_matches w ct)) (conj (proj2 (chk_window_matches w ct))
            (conj (chk_quorum_matches w ct) (conj (chk_may_vote_matches w who ct) (chk_electorate_matches w ct))))).
